@@ -5,7 +5,7 @@ from vf.lazy import ck, libx, common
 from vf.monitors import algos
 
 PROP = "C07"
-TECHNIQUE = ('runtime monitoring: ParFront vs ParCons partitions judged against ALL minimisers enumerated by a DP oracle; consistent_with judged on generated pairs with known truth')
+TECHNIQUE = ('runtime monitoring: ParFront vs ParCons partitions judged against ALL minimisers enumerated by a DP oracle; consistent_with judged on generated pairs with known truth; composite block oracle (all optima as concatenations) for 11-40 elements; partition again after an in-place mutation')
 RULE = ("cases = dataset (D11/D10 block structured with >= 3 components and cascading merges, D8, D9, D3; n<=7 quick, "
         "<=9 thorough; 8 % of the cases: 11-24 (thorough: -40) elements in ordered blocks, where the composite oracle "
         "ref.BlockOptimum knows every optimum as a concatenation of block minimisers when 'before' is strictly cheapest "
@@ -41,7 +41,7 @@ def gen_case(rng, ctx):
     elif rng.random() < 0.06:
         cls, ds = gen.dataset(rng, cls="D25", n=rng.choice([3, 4, 5, 6]), mmax=6)
         ds = libx.normalise_raw(ds)
-        scls, sch = gen.scheme(rng, "S17 S17 S16")
+        scls, sch = gen.scheme(rng, "S17 S17 S16 S1 S1 S2 S3")
     else:
         cls, ds = gen.dataset(rng, classes="D11 D11 D11 D10 D10 D8 D8 D9 D3 D2 D2 D7 D15 D14 D4 D4", nmax=nmax, mmax=6)
         ds = libx.normalise_raw(ds)
